@@ -456,10 +456,9 @@ def nxt(ck, an):
     for union in ("set(self._partition_latent) | set(self._partition_nonlatent)", "set(self._partition_nonlatent) | set(self._partition_latent)"):
         for empty in ("list()", "[]"):
             for sel in (f"sorted(t for t in {union} if {ORIGIN} <= t <= self._current_time)", f"sorted([t for t in {union} if {ORIGIN} <= t <= self._current_time])"):
-                for flat in ("list(itertools.chain(*[self._partition_latent.get(t, []) + self._partition_nonlatent.get(t, []) for t in {sel}]))",
-                             "list(itertools.chain.from_iterable([self._partition_latent.get(t, []) + self._partition_nonlatent.get(t, []) for t in {sel}]))",
-                             "[e for t in {sel} for e in self._partition_latent.get(t, []) + self._partition_nonlatent.get(t, [])]"):
-                    HIST.append(ast.parse(f"({empty}, {flat.format(sel=sel)})", mode="eval").body)
+                for dflt in ("[]", "()", "list()", "tuple()"):      # the default only has to be an empty iterable
+                    flat = "[e for t in {sel} for e in self._partition_latent.get(t, {d}) + self._partition_nonlatent.get(t, {d})]"
+                    HIST.append(ast.parse(f"({empty}, {flat.format(sel=sel, d=dflt)})", mode="eval").body)
     REG = [ast.parse("(self._partition_latent[self._current_time], self._partition_nonlatent[self._current_time])", mode="eval").body]
 
     def returned(fw_, events):
